@@ -6,8 +6,17 @@ plot.cluster_plot and the plot_stab / plot_cluster methods of the SSI and pLSCF 
 up to 60 orders; every singular-value array over a 3-symbol alphabet per spectral line x every admissible
 number of curves through plot.CMIF_plot and FDD.plot_CMIF. The data handed to the artists of the returned
 axes is read back (Agg backend) and compared with what the statement requires.
+
+Drawing history is an axis of its own: a "history" case draws a chart A, discards it, and then draws and judges a
+chart B of tables of the SAME shape (the same chart twice; the same tables with the other hide_poles value, from the
+same arrays / the same algorithm object; another table of that shape; the same tables scanned with another order
+step), for order steps 1, 2, 3. Each history case is executed in a child process forked from a process that has not
+drawn any chart, so its verdict is that of the replay file in a fresh process and no case sees another case's state.
 """
 import itertools
+import os
+import pickle
+import traceback
 
 import numpy as np
 
@@ -21,7 +30,8 @@ TECHNIQUE = ("bounded-exhaustive enumeration of pole/label tables (all assignmen
 LEVEL_TEXT = ("every table of the stated shapes over the 3-symbol cell alphabet and every option combination stated in the bounds "
               "is drawn with the real code and every marker / error bar / curve of the returned axes is judged")
 RULE = ("one case = (route, table, hide_poles, freqlim, covariance) resp. (route, singular-value array, nSv, freqlim), one figure "
-        "each; a table case is non-trivial if the table holds at least one stable, one unstable and one NaN cell (every branch "
+        "each, or a history case (route, table, hide_poles, covariance, order step, kind of prior drawing): two figures drawn one "
+        "after the other in one fresh process, the second one judged; a table or history case is non-trivial if the table holds at least one stable, one unstable and one NaN cell (every branch "
         "of the marker selection is exercised in the same figure); a CMIF case is non-trivial if at least two curves are "
         "requested and the first singular value peaks at a different line than another requested one; distinct by the case tuple")
 ASSUMPTIONS = [
@@ -29,7 +39,15 @@ ASSUMPTIONS = [
     "stable markers are the green marker artists, unstable markers the red ones (any other marker artist is reported)",
     "with frequency limits only the markers inside the window are judged and the x-limits of the axes must equal the window; without limits every required marker must lie inside the view limits",
     "model-order coordinate: a marker at (x, y) is at an admissible order iff y is a non-negative integer and SSI_mpe / pLSCF_mpe([x], tables, order=int(y), rtol=1e-9) returns exactly that pole (frequency, damping and tagged shape)",
-    "step = 1 throughout; ordmin = 0 except for a sub-lattice with ordmin 1 and 2 (labels of lower orders are 0 there, all retained poles are still drawn; the order axis of the stabilisation diagram starts at ordmin, so markers of lower orders are drawn below the view)",
+    "order step: 1 in the single-drawing cases; 1, 2, 3 in the history cases. With step s the column c of the tables holds model order c*s (the table "
+    "width int(ordmax/s + 1) of SSI_poles and the column index int(order/s) of SC_apply), while extraction addresses a column by its index: there a "
+    "marker at (x, y) is at an admissible order iff y is a non-negative integer multiple of s and extraction at column y/s returns exactly that pole, "
+    "or (literal reading of the statement) extraction at order int(y) itself returns exactly that pole; for s = 1 both are the rule above. (On the "
+    "unchanged tree SSI_poles raises IndexError for step > 1, so such tables reach the plot routines only through the functions or a result "
+    "assigned by hand.)",
+    "history cases judge the SECOND drawing only; the first one is discarded unseen (it is judged as a single drawing elsewhere in the lattice); an "
+    "exception raised by the first drawing is reported",
+    "ordmin = 0 except for a sub-lattice with ordmin 1 and 2 (labels of lower orders are 0 there, all retained poles are still drawn; the order axis of the stabilisation diagram starts at ordmin, so markers of lower orders are drawn below the view)",
     "error bars: every bar must be centred (relative 1e-9) on a drawn marker and every drawn marker with a finite covariance must carry exactly one bar; bar lengths are not judged",
 ]
 
@@ -152,38 +170,61 @@ def has_cov(route):
     return route in ("stab", "ssi.stab", "ssidatms.stab")
 
 
-def draw_table(route, Fn, Xi, Phi, Lab, cov, hide, freqlim, ordmin=0):
+def make_drawer(route, Fn, Xi, Phi, Lab, cov, ordmin=0, step=1):
+    """draw(hide, freqlim) -> (fig, ax). Every call of the returned function hands the SAME array objects to the plot function,
+    resp. calls the plot method of the SAME algorithm object. With order step s the C columns are the orders 0, s, .., (C-1)*s."""
     from pyoma2.functions import plot
 
     R, C = Fn.shape
     if route == "stab":
-        return plot.stab_plot(Fn, Lab, 1, C - 1, ordmin=ordmin, freqlim=freqlim, hide_poles=hide, Fn_cov=cov)
+        return lambda hide, freqlim: plot.stab_plot(Fn, Lab, step, (C - 1) * step, ordmin=ordmin, freqlim=freqlim, hide_poles=hide, Fn_cov=cov)
     if route == "cluster":
-        return plot.cluster_plot(Fn, Xi, Lab, ordmin=ordmin, freqlim=freqlim, hide_poles=hide)
+        return lambda hide, freqlim: plot.cluster_plot(Fn, Xi, Lab, ordmin=ordmin, freqlim=freqlim, hide_poles=hide)
     import pyoma2.algorithms as algs
     from pyoma2.algorithms.data.result import SSIResult, pLSCFResult
 
     fam, what = route.split(".")
     cls = getattr(algs, _CLS[fam])
     if fam in ("ssi", "ssidatms"):
-        a = cls(name="a", br=3, ordmax=C - 1, ordmin=ordmin)
+        kw = {"step": step} if step != 1 else {}
+        a = cls(name="a", br=3, ordmax=(C - 1) * step, ordmin=ordmin, **kw)
         a._set_data(np.zeros((10, 2)), 20.0)
         a.result = SSIResult(Fn_poles=Fn, Xi_poles=Xi, Phi_poles=Phi, Lab=Lab, Fn_poles_cov=cov,
                              Xi_poles_cov=None if cov is None else cov.copy())
     else:
+        if step != 1:
+            raise ValueError("the pLSCF classes have no order step")
         a = cls(name="a", ordmax=C, nxseg=64, ordmin=ordmin)
         a._set_data(np.zeros((10, 2)), 20.0)
         a.result = pLSCFResult(Fn_poles=Fn, Xi_poles=Xi, Phi_poles=Phi, Lab=Lab)
     if what == "stab":
-        return a.plot_stab(freqlim=freqlim, hide_poles=hide)
-    return a.plot_cluster(freqlim=freqlim, hide_poles=hide)
+        return lambda hide, freqlim: a.plot_stab(freqlim=freqlim, hide_poles=hide)
+    return lambda hide, freqlim: a.plot_cluster(freqlim=freqlim, hide_poles=hide)
 
 
-def admissible_order(route, x, y, Fn, Xi, Phi, cell):
-    """The statement's 'model-order value accepted by modal-parameter extraction for that pole'."""
+def draw_table(route, Fn, Xi, Phi, Lab, cov, hide, freqlim, ordmin=0):
+    return make_drawer(route, Fn, Xi, Phi, Lab, cov, ordmin=ordmin, step=1)(hide, freqlim)
+
+
+def admissible_order(route, x, y, Fn, Xi, Phi, cell, step=1):
+    """The statement's 'model-order value accepted by modal-parameter extraction for that pole' (order step s: the value y
+    stands for the column y/s, see ASSUMPTIONS)."""
     if not (y == int(y) and y >= 0):
         return False
     o = int(y)
+    if step != 1:
+        # two readings of the statement are admissible for an order step s > 1: y is the model order c*s of column c (the
+        # formula of stab_plot and the table width of SSI_poles), or y is literally the value `order` that extraction accepts
+        # for that pole (the column index). A marker satisfying either is not reported.
+        if _extracts(route, x, o, Fn, Xi, Phi, cell):
+            return True
+        if o % step:
+            return False
+        o //= step
+    return _extracts(route, x, o, Fn, Xi, Phi, cell)
+
+
+def _extracts(route, x, o, Fn, Xi, Phi, cell):
     try:
         if route.startswith("pl"):
             from pyoma2.functions import plscf
@@ -206,8 +247,16 @@ def inside(v, lim):
     return lo <= v <= hi
 
 
-def judge_table(t, case, route, Fn, Xi, Phi, Lab, cov, hide, freqlim, fig, ax):
+def judge_table(t, case, route, Fn, Xi, Phi, Lab, cov, hide, freqlim, fig, ax, step=1, sfx="", pre=""):
+    """sfx / pre: suffix of the violation class keys and prefix of the messages (history cases); returns (marks, ok)"""
     marks, bars, _curves = read_axes(ax)
+
+    class _T:                                      # same tally, class keys / messages marked
+        @staticmethod
+        def violation(k, msg, c):
+            t.violation(k + sfx, pre + msg, c)
+
+    tv = _T
     what = route.split(".")[-1]
     key = NAME[route]
     rname = NAME[route]
@@ -229,7 +278,7 @@ def judge_table(t, case, route, Fn, Xi, Phi, Lab, cov, hide, freqlim, fig, ax):
             extra = [x for x in xs if x not in exp[kind]] + [x for x in set(xs) if xs.count(x) > 1 and x in exp[kind]]
             role = ("rejected (NaN) or foreign value" if any(x not in cells for x in extra) else
                     ("pole of the other label class" if extra else ""))
-            t.violation(f"{key}:{kind}-markers:{'missing' if missing else 'extra'}{':hide' if hide else ''}",
+            tv.violation(f"{key}:{kind}-markers:{'missing' if missing else 'extra'}{':hide' if hide else ''}",
                         f"{rname} hide_poles={hide} freqlim={freqlim} cov={'yes' if cov is not None else 'no'}: {kind} markers at frequencies {xs}, "
                         f"required {exp[kind]} (missing {missing}, extra {extra} {role}); table cells={case['cells']} {case['R']}x{case['C']}", case)
             continue
@@ -238,20 +287,20 @@ def judge_table(t, case, route, Fn, Xi, Phi, Lab, cov, hide, freqlim, fig, ax):
             drawn.append((x, y))
             if what == "stab":
                 n_eval += 1
-                if not admissible_order(route, x, y, Fn, Xi, Phi, rc):
+                if not admissible_order(route, x, y, Fn, Xi, Phi, rc, step):
                     ok = False
-                    t.violation(f"{key}:{kind}-marker-order",
+                    tv.violation(f"{key}:{kind}-marker-order",
                                 f"{rname} hide_poles={hide}: {kind} marker of the pole in cell {list(rc)} (f={x}) is at y={y}, but extraction at order "
-                                f"int(y) does not return that pole (it is stored at order index {rc[1]}); table {case['R']}x{case['C']} cells={case['cells']}", case)
+                                f"int(y){'' if step == 1 else f' / step {step}'} does not return that pole (it is stored at order index {rc[1]}); table {case['R']}x{case['C']} cells={case['cells']}", case)
             else:
                 if y != Xi[rc]:
                     ok = False
-                    t.violation(f"{key}:{kind}-marker-damping",
+                    tv.violation(f"{key}:{kind}-marker-damping",
                                 f"{rname} hide_poles={hide}: {kind} marker of the pole in cell {list(rc)} (f={x}) is at damping {y}, the table has {Xi[rc]}; "
                                 f"table {case['R']}x{case['C']} cells={case['cells']}", case)
     if marks["other"]:
         ok = False
-        t.violation(f"{key}:unclassified-marker-artist", f"{rname}: marker artists that are neither green (stable) nor red (unstable): {marks['other'][:4]}", case)
+        tv.violation(f"{key}:unclassified-marker-artist", f"{rname}: marker artists that are neither green (stable) nor red (unstable): {marks['other'][:4]}", case)
     if hide and [m for m in marks["unstable"] if win(m[0])]:
         pass  # already reported through exp['unstable'] == []
     # ---- view
@@ -260,21 +309,21 @@ def judge_table(t, case, route, Fn, Xi, Phi, Lab, cov, hide, freqlim, fig, ax):
     if freqlim is not None:
         if xlim != tuple(float(v) for v in freqlim):
             ok = False
-            t.violation(f"{key}:xlim", f"{rname}: x-limits {xlim} differ from the requested frequency limits {freqlim}", case)
+            tv.violation(f"{key}:xlim", f"{rname}: x-limits {xlim} differ from the requested frequency limits {freqlim}", case)
     elif ok:
         om = case.get("ordmin", 0)
         # the order axis of the stabilisation diagram starts at ordmin by design; markers of lower orders are drawn, below the view
         out = [(x, y) for x, y in drawn if not (inside(x, xlim) and (inside(y, ylim) or (what == "stab" and y < om)))]
         if out:
             ok = False
-            t.violation(f"{key}:marker-outside-view", f"{rname} hide_poles={hide}: required markers {out[:3]} lie outside the view limits x{xlim} y{ylim}", case)
+            tv.violation(f"{key}:marker-outside-view", f"{rname} hide_poles={hide}: required markers {out[:3]} lie outside the view limits x{xlim} y{ylim}", case)
     # ---- error bars
     if ok:
         nb = [b for b in bars if win(0.5 * (b[0, 0] + b[1, 0]))]
         if cov is None or not has_cov(route):
             if nb:
                 ok = False
-                t.violation(f"{key}:errorbar-without-covariance", f"{rname}: {len(nb)} error bars drawn although no covariance table was given", case)
+                tv.violation(f"{key}:errorbar-without-covariance", f"{rname}: {len(nb)} error bars drawn although no covariance table was given", case)
         else:
             need = {p: 0 for p in drawn if np.isfinite(cov[cells[p[0]]])}
             for b in nb:
@@ -282,7 +331,7 @@ def judge_table(t, case, route, Fn, Xi, Phi, Lab, cov, hide, freqlim, fig, ax):
                 hit = [p for p in drawn if abs(p[0] - mx) <= 1e-9 * abs(p[0]) and p[1] == my and b[1, 1] == my]
                 if not hit:
                     ok = False
-                    t.violation(f"{key}:errorbar-orphan{':hide' if hide else ''}",
+                    tv.violation(f"{key}:errorbar-orphan{':hide' if hide else ''}",
                                 f"{rname} hide_poles={hide}: error bar centred at ({mx}, {my}) where no marker is drawn (markers {drawn}); cells={case['cells']}", case)
                     break
                 if hit[0] in need:
@@ -290,7 +339,7 @@ def judge_table(t, case, route, Fn, Xi, Phi, Lab, cov, hide, freqlim, fig, ax):
             bad = {p: n for p, n in need.items() if n != 1}
             if ok and bad:
                 ok = False
-                t.violation(f"{key}:errorbar-count", f"{rname} hide_poles={hide}: drawn poles with a number of error bars other than one: {bad}; cells={case['cells']}", case)
+                tv.violation(f"{key}:errorbar-count", f"{rname} hide_poles={hide}: drawn poles with a number of error bars other than one: {bad}; cells={case['cells']}", case)
             if ok:
                 t.outcomes["errorbars-agree"] += 1
     t.evaluations += n_eval
@@ -305,7 +354,7 @@ def judge_table(t, case, route, Fn, Xi, Phi, Lab, cov, hide, freqlim, fig, ax):
             t.outcomes["unstable-poles-hidden"] += 1
         if freqlim is not None and any(not win(f) for f in cells):
             t.outcomes["window-cuts-poles"] += 1
-    return marks
+    return marks, ok
 
 
 def run_table_case(t, case):
@@ -334,7 +383,7 @@ def run_table_case(t, case):
     try:
         t.transitions += 1
         t.validated += 1
-        marks = judge_table(t, case, route, Fn, Xi, Phi, Lab, cov, hide, freqlim, fig, ax)
+        marks, _ok = judge_table(t, case, route, Fn, Xi, Phi, Lab, cov, hide, freqlim, fig, ax)
         if set(cellstr) == set(SYM):
             t.nontrivial.add((route, R, C, cellstr, hide, freqlim is not None, bool(with_cov)))
         if case.get("sample"):
@@ -343,6 +392,119 @@ def run_table_case(t, case):
     finally:
         plt.close(fig)
         plt.close("all")
+
+
+# ---------------------------------------------------------------------------------------------
+# drawing history: chart A (discarded), then chart B of tables of the same shape (judged)
+STEPS = (1, 2, 3)
+PRIORS = ("same", "hide", "table", "step")
+_ROT = str.maketrans("NSU", "SUN")          # another table of the same shape: every cell changes its symbol
+PRIOR_TEXT = {"same": "the same chart drawn before (same arrays / same algorithm object)",
+              "hide": "the same tables drawn before with the other hide_poles value (same arrays / same algorithm object)",
+              "table": "another table of the same shape (every cell another symbol, other frequencies) drawn before with the same options",
+              "step": "the same tables drawn before as scanned with another order step"}
+
+
+def has_step(route):
+    return route in ("stab", "ssi.stab", "ssidatms.stab")
+
+
+def prior_of(case):
+    """(cells, hide, step, df, shared) of the discarded first drawing"""
+    cells, hide, step, df, p = case["cells"], case["hide"], case["step"], case["df"], case["prior"]
+    if p == "same":
+        return cells, hide, step, df, True
+    if p == "hide":
+        return cells, not hide, step, df, True
+    if p == "table":
+        return cells.translate(_ROT), hide, step, 2 * df, False
+    if p == "step":
+        return cells, hide, STEPS[(STEPS.index(step) + 1) % len(STEPS)], df, False
+    raise ValueError(p)
+
+
+def run_history_case(t, case):
+    import matplotlib.pyplot as plt
+
+    R, C, cellstr = case["R"], case["C"], case["cells"]
+    route, hide, with_cov, step, prior = case["route"], case["hide"], case["cov"], case["step"], case["prior"]
+    Fn, Xi, Phi, Lab, cov = build(R, C, cellstr, df=case["df"])
+    if not with_cov:
+        cov = None
+    cells_a, hide_a, step_a, df_a, shared = prior_of(case)
+    t.states += 1
+    t.evaluations += 2
+    cp = lambda v: None if v is None else v.copy()  # noqa: E731
+    what = f"{NAME[route]}(hide_poles={hide}, step={step}) after {PRIOR_TEXT[prior]}"
+    pre = f"[second of two drawings in one process: {PRIOR_TEXT[prior]}; order step {step}] "
+    stage = "first"
+    try:
+        draw_b = make_drawer(route, Fn.copy(), Xi.copy(), Phi.copy(), Lab.copy(), cp(cov), 0, step)
+        if shared:
+            draw_a = draw_b
+        else:
+            Fa, Xa, Pa, La, ca = build(R, C, cells_a, df=df_a)
+            draw_a = make_drawer(route, Fa, Xa, Pa, La, ca if with_cov else None, 0, step_a)
+        fig_a, _ax_a = draw_a(hide_a, None)
+        plt.close(fig_a)
+        plt.close("all")
+        stage = "second"
+        fig, ax = draw_b(hide, None)
+    except Exception as e:
+        plt.close("all")
+        t.violation(f"raises:{type(e).__name__}:{NAME[route]}:history", f"{what}: the {stage} drawing raised {type(e).__name__}: {e}; "
+                    f"table {R}x{C} cells={cellstr}", case)
+        return
+    try:
+        t.transitions += 1
+        t.validated += 1
+        marks, ok = judge_table(t, case, route, Fn, Xi, Phi, Lab, cov, hide, None, fig, ax, step=step, sfx=":2nd-drawing", pre=pre)
+        if ok:
+            t.outcomes[f"history:agree:{route}"] += 1
+            t.outcomes[f"history:prior={prior}"] += 1
+            t.outcomes["history:step>1" if step > 1 else "history:step=1"] += 1
+            if shared and "." in route:
+                t.outcomes["history:same-algorithm-object"] += 1
+            if step > 1 and any(y > C - 1 for _x, y in marks["stable"] + marks["unstable"]):
+                t.outcomes["history:marker-above-column-count"] += 1      # an order value that is not a column index
+        if set(cellstr) == set(SYM):
+            t.nontrivial.add(("history", route, R, C, cellstr, hide, bool(with_cov), step, prior))
+        if case.get("sample"):
+            t.sample({"case": {k: v for k, v in case.items() if k != "sample"},
+                      "stable_markers": marks["stable"], "unstable_markers": marks["unstable"]})
+    finally:
+        plt.close(fig)
+        plt.close("all")
+
+
+def isolated(func, case):
+    """Run func(Tally, case) in a child forked from this process and return the child's Tally. The calling process must not have
+    drawn anything with the library (the history cases are explored before every other case, and the workers only fork)."""
+    r, w = os.pipe()
+    pid = os.fork()
+    if pid == 0:
+        try:
+            os.close(r)
+            try:
+                t = Tally()
+                func(t, case)
+                out = ("ok", t)
+            except BaseException:
+                out = ("exc", traceback.format_exc())
+            with os.fdopen(w, "wb") as f:
+                pickle.dump(out, f)
+        finally:
+            os._exit(0)
+    os.close(w)
+    with os.fdopen(r, "rb") as f:
+        data = f.read()
+    os.waitpid(pid, 0)
+    if not data:
+        raise RuntimeError(f"child process of history case {case} died without an answer")
+    out = pickle.loads(data)
+    if out[0] != "ok":
+        raise RuntimeError(f"history case {case} failed in its child process:\n{out[1]}")
+    return out[1]
 
 
 # ---------------------------------------------------------------------------------------------
@@ -473,6 +635,37 @@ def table_cases(thorough):
     return cases
 
 
+def history_cases(thorough):
+    cases = []
+
+    def add(R, C, cellsets, routes, steps=STEPS, covs=(False, True), df=0.1):
+        for cells in cellsets:
+            for route in routes:
+                for step in (steps if has_step(route) else (1,)):
+                    for prior in PRIORS:
+                        if prior == "step" and not has_step(route):
+                            continue
+                        for hide in (True, False):
+                            for cv in (covs if has_cov(route) else (False,)):
+                                cases.append({"kind": "history", "route": route, "R": R, "C": C, "cells": cells, "hide": hide,
+                                              "freqlim": None, "cov": cv, "df": df, "step": step, "prior": prior})
+
+    perms = ["".join(p) for p in itertools.permutations(SYM)]
+    cls_routes = ("ssi.cluster", "pl.stab", "pl.cluster")
+    if not thorough:
+        # 6 banded tables per shape: every cell takes every symbol, every table holds all three
+        add(2, 3, [banded_cells(2, 3, p) for p in perms], ("stab", "cluster") + cls_routes)
+        add(2, 3, [banded_cells(2, 3, p) for p in perms], ("ssi.stab",), covs=(True,))
+        add(3, 4, [banded_cells(3, 4, p) for p in perms], ("stab", "ssi.stab"), steps=(2, 3), covs=(True,))
+    else:
+        pats = ["".join(p) for p in itertools.product(SYM, repeat=3)]
+        add(2, 3, all_cells(2, 3)[::14] + [banded_cells(2, 3, p) for p in perms], ("stab", "cluster", "ssi.stab") + cls_routes)
+        add(2, 2, all_cells(2, 2)[::3], ("ssidatms.stab", "ssidatms.cluster", "plms.stab", "plms.cluster"))
+        add(3, 4, [banded_cells(3, 4, p) for p in pats], ("stab", "ssi.stab"))
+        add(3, 20, [banded_cells(3, 20, p) for p in perms], ("stab", "ssi.stab"), steps=(2, 3), df=0.01)
+    return cases
+
+
 def cmif_cases(thorough):
     L = 6 if thorough else 4
     cases = []
@@ -490,14 +683,42 @@ def cmif_cases(thorough):
     return cases
 
 
+def _work_history(chunk):
+    t = Tally()
+    for case in chunk:
+        t.merge(isolated(run_history_case, case))
+    return t
+
+
 def _work(chunk):
     t = Tally()
     for case in chunk:
+        if case["kind"] == "history":
+            raise RuntimeError("history cases are explored through _work_history (fresh child process per case)")
         if case["kind"] == "table":
             run_table_case(t, case)
         else:
             run_cmif_case(t, case)
     return t
+
+
+def _warm_matplotlib():
+    """One plain matplotlib figure (no library code): font lookup and text layout caches are filled before the workers are forked."""
+    import matplotlib.pyplot as plt
+
+    fig, ax = plt.subplots(figsize=(8, 6), tight_layout=True)
+    ax.plot([0.0, 1.0], [0.0, 1.0], "go", markersize=7, label="a")
+    ax.scatter([0.5], [0.5], marker="o", s=4, c="r", label="b")
+    ax.errorbar([0.2], [0.2], xerr=[0.1], fmt="None", capsize=5, ecolor="gray")
+    ax.set_title("t")
+    ax.set_xlabel("x")
+    ax.set_ylabel("y")
+    ax.legend(loc="lower center", ncol=2)
+    ax.grid()
+    plt.tight_layout()
+    fig.canvas.draw()
+    plt.close(fig)
+    plt.close("all")
 
 
 def explore(ctx):
@@ -510,6 +731,11 @@ def explore(ctx):
 
     tc = table_cases(ctx.thorough)
     cc = cmif_cases(ctx.thorough)
+    hc = history_cases(ctx.thorough)
+    for c in hc:                       # one written-out sample: first class-route history case with an order step above 1
+        if c["route"] == "ssi.stab" and c["step"] > 1 and c["prior"] == "hide" and not c["hide"]:
+            c["sample"] = True
+            break
     seen_routes = set()
     for c in tc:                       # written-out samples: first table with all three symbols per route (at most 5)
         if c["route"] not in seen_routes and set(c["cells"]) == set(SYM) and not c["hide"] and len(seen_routes) < 5:
@@ -526,17 +752,34 @@ def explore(ctx):
                            "; 3x4: covering subset = 27 banded tables (column c = 3-symbol pattern rotated by c) + 24 single-pole tables; "
                            "banded family with " + ("20, 40, 60" if ctx.thorough else "60") + " orders"),
         "hide_poles": [True, False], "freqlim": [None, list(LO_HI)], "covariance_table": [None, "mixed small/large (|cov*Fn| below and above 0.5)"],
-        "step": 1, "ordmin": [0, 1, 2],
+        "step": {"single drawings": 1, "history cases": list(STEPS)}, "ordmin": [0, 1, 2],
+        "history": {"what": "chart A drawn and discarded, then chart B of tables of the same shape drawn and judged, both in one child process forked "
+                            "from a process that has not drawn any chart (one child per case)",
+                    "prior_drawing": PRIOR_TEXT, "order_step": list(STEPS), "hide_poles": [True, False],
+                    "covariance_table": [None, "mixed"], "freqlim": [None],
+                    "tables": {f"{R}x{C}": {"routes": sorted({c["route"] for c in hc if (c["R"], c["C"]) == (R, C)}),
+                                            "steps": sorted({c["step"] for c in hc if (c["R"], c["C"]) == (R, C)}),
+                                            "tables": len({c["cells"] for c in hc if (c["R"], c["C"]) == (R, C)})}
+                               for (R, C) in sorted({(c["R"], c["C"]) for c in hc})},
+                    "table_family": "banded tables (column c = pattern rotated by c) over the 6 orders of the 3 symbols" +
+                                    ("; every 14th 2x3 table, every 3rd 2x2 table, all 27 banded 3x4 tables, banded 3x20" if ctx.thorough else ""),
+                    "cases": len(hc)},
         "cmif": {"channels": [2, 3, 4], "lines": 6 if ctx.thorough else 4, "symbols_per_line": LEVELS, "nSv": "all, 1..n-1",
                  "routes": ["plot.CMIF_plot", "FDD.plot_CMIF"], "freqlim": [None, [0.4, 1.2]]},
-        "figures": len(tc) + len(cc),
+        "figures": len(tc) + len(cc) + 2 * len(hc),
     }
+    # history cases FIRST: the pool is created here, from a process that has drawn nothing, and during this phase the workers only
+    # fork one child per case, so every history case starts from the state of a fresh process (and leaves no state behind)
+    _warm_matplotlib()
+    ctx.pmap(_work_history, [hc[i:i + 12] for i in range(0, len(hc), 12)], chunksize=1)
     # interleave cheap and expensive cases; ~24 figures per item
     items = [tc[i:i + 24] for i in range(0, len(tc), 24)] + [cc[i:i + 96] for i in range(0, len(cc), 96)]
     ctx.pmap(_work, items, chunksize=1)
     routes = sorted({c["route"] for c in tc} | {c["route"] for c in cc})
     ctx.require(*[f"agree:{r}" for r in routes], "stable-markers-drawn", "unstable-markers-drawn", "unstable-poles-hidden",
                 "window-cuts-poles", "errorbars-agree", "cmif:all", "cmif:subset")
+    ctx.require(*[f"history:agree:{r}" for r in sorted({c["route"] for c in hc})], *[f"history:prior={p}" for p in PRIORS],
+                "history:step=1", "history:step>1", "history:same-algorithm-object", "history:marker-above-column-count")
 
 
 def replay(case):
@@ -547,7 +790,9 @@ def replay(case):
     case = dict(case)
     if case.get("freqlim") is not None:
         case["freqlim"] = tuple(case["freqlim"])
-    if case["kind"] == "table":
+    if case["kind"] == "history":
+        run_history_case(t, case)          # the replaying process is fresh: no isolation needed
+    elif case["kind"] == "table":
         run_table_case(t, case)
     else:
         run_cmif_case(t, case)
